@@ -38,6 +38,12 @@ func (u *ActiveUser) CloseSession(sessionID uint32, reason string) {
 		sesh.Close()
 	}
 	remaining := len(u.sessions)
+	if remaining == 0 {
+		// the record is about to be terminated: decide it here, under the lock, so that a connection
+		// arriving right now is refused (and retries) instead of getting a session that the
+		// termination below would immediately close
+		u.terminated = true
+	}
 	u.sessionsM.Unlock()
 	if remaining == 0 {
 		u.panel.TerminateActiveUser(u, "no session left")
